@@ -268,7 +268,7 @@ def _design(rng, n_mod):
 def float_leg(chunk, replay=None):
     import math
     from frame.die.die import Die
-    from frame.utils.utils import write_yaml
+    from json import dumps as write_yaml        # input documents are written WITHOUT the library (JSON is a subset of YAML): the harness must not depend on the code under test
     tier = os.environ.get("VERIF_TIER", "quick")
     rng = random.Random(777 + chunk + 100 * int(os.environ.get("VERIF_SEED", "0") or 0))
     n_des = 25 if tier != "thorough" else 400
